@@ -152,8 +152,16 @@ func checkC10(c c10Case) (ci caseInfo, err error) {
 			touchItem(lib)
 		}
 		var res ast.ItemNode
+		given := fmt.Sprint(libFill)
 		if p, msg := try(func() { res = lib.FillVariables(libFill) }); p {
 			return ci, fmt.Errorf("round %d: FillVariables(%v) panicked: %s\ntemplate: %s", r+1, libFill, msg, clipStr(itemString(lib), 400))
+		}
+		if after := fmt.Sprint(libFill); after != given {
+			return ci, fmt.Errorf("round %d: FillVariables changed the map it was given: %s -> %s", r+1, given, after)
+		}
+		// the same map object applied once more to the same template gives the same result
+		if again := lib.FillVariables(libFill); itemString(again) != itemString(res) || !sameStrings(again.Variables(), res.Variables()) {
+			return ci, fmt.Errorf("round %d: applying the same map %s a second time gives a different result:\nfirst:  %s\nsecond: %s", r+1, given, clipStr(itemString(res), 300), clipStr(itemString(again), 300))
 		}
 		if err := compareExpanded(res, next, matched, c.Variant, fmt.Sprintf("round %d fills %v", r+1, refFill), libE); err != nil {
 			return ci, err
